@@ -8,6 +8,7 @@ from ..effects import analyse
 from ..registry import describe, rule
 from ..util import calls_named, returns_of
 from . import shared
+from .. import tmatch as tm
 
 EI = "pgmpy/inference/ExactInference.py"
 IB = "pgmpy/inference/base.py"
@@ -279,6 +280,62 @@ def names(rc):
                         elif isinstance(leaf, ast.Compare) and dotted(leaf.left) == p and isinstance(leaf.ops[0], (ast.Is, ast.IsNot)):
                             n_tests += 1
             rc.ob(f"{f.file}:{f.qual}({p}=None): {n_tests} presence test(s)")
+    # a parameter that is either a node name or a model object (CPD / factor) is classified by the OBJECT's class: any hashable is a node name, so a closed
+    # list of scalar name types sends tuple / float / frozenset names down the object path
+    n_disc = 0
+    for f in repo.all_functions():
+        if f.file not in files or f.cls is None:
+            continue
+        for st in walk_no_nested(f.node):
+            if not isinstance(st, ast.If):
+                continue
+            neg = isinstance(st.test, ast.UnaryOp) and isinstance(st.test.op, ast.Not)
+            b = tm.is_(st.test.operand if neg else st.test, "isinstance(_X, __T)")
+            if not b:
+                continue
+            def _lookups(stmts):
+                return [x for x in stmts if isinstance(x, ast.Assign) and norm(x.targets[0]) == b["_X"] and isinstance(x.value, ast.Call)
+                        and isinstance(x.value.func, ast.Attribute) and dotted(x.value.func.value) == "self" and x.value.func.attr.startswith("get_")
+                        and any(norm(a) == b["_X"] for a in x.value.args)]
+            look = _lookups(st.body)
+            if not look and _lookups(st.orelse):
+                look, neg = _lookups(st.orelse), not neg  # the name path is the else branch
+            if not look:
+                continue
+            n_disc += 1
+            tnames = {x.id for x in ast.walk(b["__T"]) if isinstance(x, ast.Name)}
+            rc.ob(f"{f.file}:{f.qual}: `{b['_X']}` is a name iff {'not ' if neg else ''}isinstance(·, {sorted(tnames)}), then looked up with {norm(look[0].value.func)}")
+            if not neg and tnames and tnames <= {"str", "int", "float", "bytes"}:
+                rc.fail(f, st.test, f"{f.qual}: `{b['_X']}` is taken for a node name only if it is a {'/'.join(sorted(tnames))}; every hashable is a legal node name, so a tuple, float "
+                        f"or frozenset name is treated as the object itself (`{norm(look[0], 60)}` skipped)", construct=f"{f.qual} name-or-object by name type")
+    if n_disc < 2:
+        raise AnalysisError(f"C16.names: expected the name-or-object discriminations of remove_cpds (Bayesian and dynamic network), found {n_disc}")
+    # a single node handed to Independencies.add_assertions / IndependenceAssertion is wrapped in a collection: the callee understands a bare event only if it
+    # is a str (`_return_list_if_not_collection`), so a bare tuple name is split into its elements and a bare int name raises
+    n_as = 0
+    for f in repo.all_functions():
+        if not f.file.startswith(("pgmpy/base/", "pgmpy/models/")):
+            continue
+        loopvars = set()
+        for n in walk_no_nested(f.node):
+            if isinstance(n, (ast.For, ast.comprehension)) and isinstance(n.target, ast.Name):
+                if isinstance(n.iter, ast.Call) and call_name(n.iter) in ("combinations", "permutations", "product", "zip", "enumerate", "items", "combinations_with_replacement"):
+                    continue  # the elements are tuples of nodes (collections), not single nodes
+                loopvars.add(n.target.id)
+        for c in repo.calls_in(f):
+            if call_name(c) != "add_assertions":
+                continue
+            for arg in c.args:
+                if not (isinstance(arg, (ast.List, ast.Tuple)) and len(arg.elts) >= 2):
+                    continue
+                n_as += 1
+                bare = [e for e in arg.elts if isinstance(e, ast.Name) and e.id in loopvars]
+                rc.ob(f"{f.file}:{f.qual}: assertion `{norm(arg, 70)}`: {len(bare)} bare loop variable(s)")
+                for e in bare:
+                    rc.fail(f, arg, f"{f.qual}: the node `{e.id}` is passed bare in the assertion `{norm(arg, 60)}`; only a str is wrapped by the callee — a tuple name is "
+                            f"split into its elements (assertions about variables that do not exist), an int name raises", construct=f"{f.qual} bare node {e.id} in assertion")
+    if n_as < 3:
+        raise AnalysisError(f"C16.names: expected the assertion-building sites of DAG and MarkovNetwork, found {n_as}")
 
 
 def _leaves(t):
@@ -341,6 +398,16 @@ def defuse(rc):
     _sh.defuse_rule(rc, _sh.anchor_files("C16"))
 
 MUTANTS = [
+    dict(kind="break", name="assertion-bare-start-node", file="pgmpy/base/DAG.py", expect="C16.names",
+         old="                            [[start], d_seperated_variables, observed]", new="                            [start, d_seperated_variables, observed]"),
+    dict(kind="break", name="markov-assertion-bare-node", file="pgmpy/models/MarkovNetwork.py", expect="C16.names",
+         old="                    [[node], list(rest), list(markov_blanket)]", new="                    [node, list(rest), list(markov_blanket)]"),
+    dict(kind="twin", name="assertion-node-in-set", file="pgmpy/base/DAG.py",
+         old="                    [[variable], non_descendents - parents, parents]", new="                    [{variable}, non_descendents - parents, parents]"),
+    dict(kind="break", name="remove-cpds-name-by-scalar-type", file="pgmpy/models/BayesianNetwork.py", expect="C16.names",
+         old="            if not isinstance(cpd, BaseFactor):\n                cpd = self.get_cpds(cpd)", new="            if isinstance(cpd, (str, int)):\n                cpd = self.get_cpds(cpd)"),
+    dict(kind="twin", name="remove-cpds-name-by-object-class-positive", file="pgmpy/models/BayesianNetwork.py",
+         old="            if not isinstance(cpd, BaseFactor):\n                cpd = self.get_cpds(cpd)", new="            if isinstance(cpd, BaseFactor):\n                pass\n            else:\n                cpd = self.get_cpds(cpd)"),
     dict(kind="break", name="uai-writer-str-accumulates", file="pgmpy/readwrite/UAI.py", expect="C16.observers",
          old="        network = self.network\n        network += self.no_nodes + \"\\n\"", new="        self.network += self.no_nodes + \"\\n\"\n        network = self.network"),
     dict(kind="break", name="hillclimb-edits-start-dag", file="pgmpy/estimators/HillClimbSearch.py", expect="C16.pure",
